@@ -170,6 +170,8 @@ type attCase struct {
 	NotAfter  int64 `json:"slot_cert_not_after,omitempty"`
 }
 
+var ring *ev.Ring
+
 func runCase(r *ev.Run, c *ev.Case, att *yubiattest.Attestor, f9 *x509.Certificate, ac attCase, sig, tbs []byte) {
 	r.Eval(1)
 	attest := &x509.Certificate{SignatureAlgorithm: x509.SignatureAlgorithm(ac.Alg), RawTBSCertificate: tbs, Signature: sig}
@@ -193,6 +195,10 @@ func runCase(r *ev.Run, c *ev.Case, att *yubiattest.Attestor, f9 *x509.Certifica
 	}()
 	if panicked {
 		return
+	}
+	if ring != nil {
+		first := fmt.Sprint(err == nil)
+		ring.Add(r, c, func() string { return fmt.Sprint(att.Attest(f9, attest) == nil) }, first, ac.What)
 	}
 	switch ac.Expect {
 	case "accept":
@@ -238,6 +244,7 @@ func main() {
 			replay(r)
 			return
 		}
+		ring = ev.NewRing("Attest", r.Seed, 29)
 		p := &pki{}
 		p.rootKey, p.root, p.rootDER = newCA("verif PIV root")
 		p.otherKey, p.other, _ = newCA("verif other CA")
